@@ -1,18 +1,245 @@
-import GrmVerif.Model.Recover
-/-! # C05 — theorems being written -/
-namespace GrmVerif.C05
-open GrmVerif Rec
+import GrmVerif.Props.C07
+import GrmVerif.Lemmas.LRComplete
+/-!
+# C05 — every reported repair sequence repairs; parsing continues as if it were applied
 
-/-- stripping trailing shifts leaves no trailing shift -/
-theorem stripShifts_no_trailing (rs : List Repair) : (stripShifts rs).getLast? ≠ some .shift := by
-  unfold stripShifts
-  rw [List.getLast?_reverse]
-  cases h : rs.reverse.dropWhile (· == Repair.shift) with
-  | nil => simp
-  | cons a as =>
-    have := List.head_dropWhile_not (fun x => x == Repair.shift) rs.reverse (by rw [h]; simp)
-    simp only [h, List.head_cons] at this
-    simp only [List.head?_cons, ne_eq, Option.some.injEq]
-    intro e; subst e; simp at this
+Specification: `Rec.applySeq`, `Rec.validSeq`, `Rec.editSeq` (`Model/Recover.lean`). The driver
+evaluates `validSeq` on every repair sequence the real recoverer reports, and compares the returned
+tree with the plain parse (`LR.parse`, the model proved sound and complete under C01) of the input
+edited by the first sequence of every error. The theorems connect these definitions:
+applying a sequence is feeding the tokens of the edited input (`applySeq_is_edited_input`), feeding
+a token to the stack automaton is what the full LR driver does (`feed_is_lr_steps`), and a valid
+sequence leaves the parser where a plain parse runs `N` lexemes or accepts (`validSeq_runs`), which
+is exactly the premise `RecovererOK` of C07.
+-/
+namespace GrmVerif.C05
+open GrmVerif Rec LR Cert
+
+/-- feed a list of tokens, each of which must be shifted -/
+def feedToks (G : Grammar) (A : Automaton) : List Nat → List Nat → Option (List Nat)
+  | stack, [] => some stack
+  | stack, t :: ts =>
+    match feed G A t FUEL stack with
+    | .shifted s => feedToks G A s ts
+    | _ => none
+
+def itemTok (w : List Nat) : EItem → Nat
+  | .real i => w.getD i 0
+  | .ins t _ => t
+
+/-- **Applying a repair sequence = parsing the edited input.** If the sequence applies from
+`c`, the resulting configuration is the one reached by feeding, in order, the tokens of the edited
+input it denotes (deleted lexemes dropped, inserted tokens added, shifted lexemes kept), and the
+input position is the one after the last lexeme it consumed. -/
+theorem applySeq_is_edited_input (G : Grammar) (A : Automaton) (w : List Nat) :
+    ∀ (rs : List Repair) (c c' : Pos), applySeq G A w c rs = some c' →
+      feedToks G A c.stack ((editSeq c.pos rs).1.map (itemTok w)) = some c'.stack ∧
+      c'.pos = (editSeq c.pos rs).2 := by
+  intro rs
+  induction rs with
+  | nil => intro c c' h; simp [applySeq] at h; subst h; simp [editSeq, feedToks]
+  | cons r rs ih =>
+    intro c c' h
+    simp only [applySeq] at h
+    cases hr : applyRepair G A w c r with
+    | none => rw [hr] at h; cases h
+    | some c1 =>
+      rw [hr] at h
+      simp only at h
+      obtain ⟨i1, i2⟩ := ih c1 c' h
+      cases r with
+      | insert t =>
+        simp only [applyRepair] at hr
+        cases hf : feed G A t FUEL c.stack with
+        | shifted s =>
+          rw [hf] at hr; injection hr with hr; subst hr
+          simp only at i1 i2
+          simp [editSeq, feedToks, itemTok, hf, i1, i2]
+        | accept s => rw [hf] at hr; cases hr
+        | error s => rw [hf] at hr; cases hr
+        | crash => rw [hf] at hr; cases hr
+        | fuelOut => rw [hf] at hr; cases hr
+      | delete =>
+        simp only [applyRepair] at hr
+        split at hr
+        · injection hr with hr; subst hr
+          simp only at i1 i2
+          simp [editSeq, i1, i2]
+        · cases hr
+      | shift =>
+        simp only [applyRepair] at hr
+        cases hw : w[c.pos]? with
+        | none => rw [hw] at hr; cases hr
+        | some t =>
+          rw [hw] at hr
+          simp only at hr
+          cases hf : feed G A t FUEL c.stack with
+          | shifted s =>
+            rw [hf] at hr; injection hr with hr; subst hr
+            simp only at i1 i2
+            simp [editSeq, feedToks, itemTok, hw, hf, i1, i2]
+          | accept s => rw [hf] at hr; cases hr
+          | error s => rw [hf] at hr; cases hr
+          | crash => rw [hf] at hr; cases hr
+          | fuelOut => rw [hf] at hr; cases hr
+
+/-- `continueFrom` counts the lexemes a plain parse shifts: if it reports `n` shifts or acceptance,
+the plain parse `Runs` that far -/
+theorem continueFrom_runs (G : Grammar) (A : Automaton) (w : List Nat) (N : Nat) :
+    ∀ (fuel : Nat) (c : Pos) (m n : Nat) (acc : Bool) (p : Nat),
+      continueFrom G A w fuel c m = (n, acc, p) → (acc = true ∨ m + N ≤ n) → C07.Runs G A w N c := by
+  intro fuel
+  induction fuel generalizing N with
+  | zero =>
+    intro c m n acc p h hv
+    simp only [continueFrom, Prod.mk.injEq] at h
+    obtain ⟨rfl, rfl, _⟩ := h
+    rcases hv with hv | hv
+    · cases hv
+    · have : N = 0 := by omega
+      subst this; exact .zero c
+  | succ f ih =>
+    intro c m n acc p h hv
+    simp only [continueFrom] at h
+    cases hf : feed G A (nextTok G w c.pos) FUEL c.stack with
+    | shifted s =>
+      rw [hf] at h
+      simp only at h
+      cases N with
+      | zero => exact .zero c
+      | succ N' =>
+        refine .shift c N' s hf (ih N' _ (m + 1) n acc p h ?_)
+        rcases hv with hv | hv
+        · exact Or.inl hv
+        · exact Or.inr (by omega)
+    | accept s => exact .acc c N s hf
+    | error s =>
+      rw [hf] at h
+      simp only [Prod.mk.injEq] at h
+      obtain ⟨rfl, rfl, _⟩ := h
+      rcases hv with hv | hv
+      · cases hv
+      · have : N = 0 := by omega
+        subst this; exact .zero c
+    | crash =>
+      rw [hf] at h
+      simp only [Prod.mk.injEq] at h
+      obtain ⟨rfl, rfl, _⟩ := h
+      rcases hv with hv | hv
+      · cases hv
+      · have : N = 0 := by omega
+        subst this; exact .zero c
+    | fuelOut =>
+      rw [hf] at h
+      simp only [Prod.mk.injEq] at h
+      obtain ⟨rfl, rfl, _⟩ := h
+      rcases hv with hv | hv
+      · cases hv
+      · have : N = 0 := by omega
+        subst this; exact .zero c
+
+/-- **A valid sequence repairs**: it applies with plain LR semantics, never moves the input
+position backwards, and leaves the parser in a configuration from which a plain parse continues
+without error over at least `N` further lexemes or to acceptance — the premise of C07's
+`RecovererOK` for a recoverer that applies it. -/
+theorem validSeq_runs (G : Grammar) (A : Automaton) (w : List Nat) (N : Nat) (c : Pos) (rs : List Repair)
+    (h : validSeq G A w N c rs = true) :
+    ∃ c', applySeq G A w c rs = some c' ∧ c.pos ≤ c'.pos ∧ C07.Runs G A w N c' := by
+  unfold validSeq at h
+  cases ha : applySeq G A w c rs with
+  | none => rw [ha] at h; cases h
+  | some c' =>
+    rw [ha] at h
+    simp only at h
+    refine ⟨c', rfl, ?_, ?_⟩
+    · -- positions only move forwards
+      have : ∀ (rs : List Repair) (c c' : Pos), applySeq G A w c rs = some c' → c.pos ≤ c'.pos := by
+        intro rs
+        induction rs with
+        | nil => intro c c' h; simp [applySeq] at h; subst h; exact Nat.le_refl _
+        | cons r rs ih =>
+          intro c c' h
+          simp only [applySeq] at h
+          cases hr : applyRepair G A w c r with
+          | none => rw [hr] at h; cases h
+          | some c1 =>
+            rw [hr] at h
+            have h1 := ih c1 c' h
+            have h0 : c.pos ≤ c1.pos := by
+              cases r with
+              | insert t =>
+                simp only [applyRepair] at hr
+                cases hf : feed G A t FUEL c.stack <;> rw [hf] at hr <;> first | (injection hr with hr; subst hr; exact Nat.le_refl _) | cases hr
+              | delete =>
+                simp only [applyRepair] at hr
+                split at hr
+                · injection hr with hr; subst hr; exact Nat.le_succ _
+                · cases hr
+              | shift =>
+                simp only [applyRepair] at hr
+                cases hw : w[c.pos]? with
+                | none => rw [hw] at hr; cases hr
+                | some t =>
+                  rw [hw] at hr
+                  simp only at hr
+                  cases hf : feed G A t FUEL c.stack <;> rw [hf] at hr <;> first | (injection hr with hr; subst hr; exact Nat.le_succ _) | cases hr
+            omega
+      exact this rs c c' ha
+    · cases hcf : continueFrom G A w (w.length + 2) c' 0 with
+      | mk n rest =>
+        obtain ⟨acc, p⟩ := rest
+        rw [hcf] at h
+        simp only [Bool.or_eq_true, decide_eq_true_eq] at h
+        refine continueFrom_runs G A w N _ c' 0 n acc p hcf ?_
+        rcases h with h | h
+        · exact Or.inl h
+        · exact Or.inr (by omega)
+
+/-- **Feeding a token is what the LR driver does.** If the stack automaton shifts lookahead `la`
+from `stack` (after the reductions the table prescribes), then the full driver — with trees —
+started in any configuration with that state stack and lookahead reaches, in some number of steps,
+the configuration with the shifted stack, the lexeme pushed as a leaf, and the next position. -/
+theorem feed_is_lr_steps (G : Grammar) (A : Automaton) (w : List Nat) :
+    ∀ (fuel : Nat) (stack s' : List Nat) (astack : List Tree) (laidx : Nat),
+      feed G A (nextTok G w laidx) fuel stack = .shifted s' →
+      ∃ astack', Steps G A w ⟨stack, astack, laidx⟩ ⟨s', .leaf (nextTok G w laidx) laidx :: astack', laidx + 1⟩ := by
+  intro fuel
+  induction fuel with
+  | zero => intro stack s' astack laidx h; simp [feed] at h
+  | succ f ih =>
+    intro stack s' astack laidx h
+    cases stack with
+    | nil => simp [feed] at h
+    | cons st rest =>
+      simp only [feed] at h
+      cases hact : A.action st (nextTok G w laidx) with
+      | error => rw [hact] at h; cases h
+      | accept => rw [hact] at h; cases h
+      | shift s1 =>
+        rw [hact] at h
+        injection h with h; subst h
+        exact ⟨astack, Steps.single (by simp [step, hact])⟩
+      | reduce p =>
+        rw [hact] at h
+        simp only at h
+        by_cases hle : (st :: rest).length ≤ (G.rhs p).length
+        · rw [if_pos hle] at h; cases h
+        · rw [if_neg hle] at h
+          cases hd : List.drop (G.rhs p).length (st :: rest) with
+          | nil => rw [hd] at h; cases h
+          | cons prior tl =>
+            rw [hd] at h
+            simp only at h
+            cases hg : A.goto prior (G.lhs p) with
+            | none => rw [hg] at h; cases h
+            | some s1 =>
+              rw [hg] at h
+              simp only at h
+              obtain ⟨astack', hs⟩ := ih (s1 :: prior :: tl) s'
+                (.node p (astack.take (G.rhs p).length).reverse :: astack.drop (G.rhs p).length) laidx h
+              refine ⟨astack', .step _ _ _ ?_ hs⟩
+              simp only [step, hact]
+              rw [if_neg hle, hd]
+              simp only [hg]
 
 end GrmVerif.C05
